@@ -7,6 +7,13 @@ ENGINES = [
 NOTES = "All checks rebuild from /repo's current working tree. Exit 2 = internal error of the machinery (never a verdict)."
 NOT_APPLICABLE = {}
 META = {
+    "C13": {
+        "engine": "bounded exhaustive enumeration + round-trip oracle",
+        "design_ref": "DESIGN.md section 3 C13",
+        "technique": "bounded exhaustive enumeration of grammar-generated task scripts and lambda ASTs (all operator pairs x nestings x parenthesisation, all literal forms, comments at every token boundary) with differential round-trip oracles on a reflection-based semantic description of the pipeline",
+        "level_text": "Every generated script that defines a task goes through four independent round-trip stages (Format, pipeline->TICKscript, pipeline JSON, JSON->TICKscript); the pipelines are compared through a reflection dump of all node properties and lambda trees (not through the lossy JSON). Lambdas: JSON round trip Equal and format-stable.",
+        "level_note": "Exploration of programs: the generator covers the node kinds and literal forms listed in the evidence rule, not every chain method of every node. The pipeline->TICKscript and pipeline JSON reading paths have many recorded known findings (unused by the daemon itself), which mask regressions on the same inputs.",
+    },
     "C15": {
         "engine": "explicit-state search + fault enumeration",
         "design_ref": "DESIGN.md section 3 C15",
